@@ -82,6 +82,7 @@ LinearIn(cs, x0, dvals) ==
 CheckRootCase(c) ==
   LET id == c.id IN
   IF c.res.k # "obs" THEN Verdict(id, "root: result-kind " \o c.res.k, FALSE)
+  ELSE IF c.res.o.value = "nan" THEN Verdict(id, "root: the returned central value is not a number", FALSE)
   ELSE LET x == c.res.o.value
            dvals == Values(c.ops)
            vals == <<x>> \o dvals
